@@ -188,7 +188,7 @@ func drawCaseN(t *rapid.T, maxRecipe, minHist, maxHist int) *Case {
 	c.Open.Preload = rapid.Bool().Draw(t, "preload")
 	c.Open.CacheCap = rapid.SampledFrom([]int64{-1, 0, 150, 300, 1200, 3000, 1 << 24, 1 << 24, 1 << 24}).Draw(t, "cap")
 	d := model.NewData(c.Data.Rows())
-	pool := gen.NewLeafPool(d)
+	pool := gen.NewLeafPool(d).AllowEmptyName()
 	var exprs []model.Expr
 	n := rapid.IntRange(minHist, maxHist).Draw(t, "nhist")
 	for i := 0; i < n; i++ {
@@ -204,6 +204,13 @@ func drawCaseN(t *rapid.T, maxRecipe, minHist, maxHist int) *Case {
 			q.Kind = "repeat"
 		default:
 			q = Q{Expr: pool.Expr(t, gen.ExprOpts{MaxDepth: 3, UnknownPct: 20}), Kind: "maybe-unknown"}
+			if eps := pool.ErrorPrecedence(t); len(eps) > 0 && rapid.Bool().Draw(t, "errprec") {
+				// an unknown column next to an operand that already decides the
+				// node; its permutations follow through the confusers (a cached
+				// "nothing matches" must not answer the permuted query)
+				q = Q{Expr: eps[0], Kind: "maybe-unknown"}
+				exprs = append(exprs, eps...)
+			}
 		}
 		if q.Kind != "repeat" && rapid.IntRange(0, 3).Draw(t, "gb?") == 0 {
 			q.GroupBy = pool.GroupBy(t, 3, 0)
